@@ -159,7 +159,7 @@ func compensated(comp string, n, k int) string {
 	return strings.Repeat(comp+"/", n) + dotdots(n+k)
 }
 
-var titleClasses = []string{"benign", "abs-victim", "abs-new", "dotdot-k", "dotdot-many", "mid-dotdot", "dots-only", "nul", "long", "collide", "odd-sep", "dotdot-trailing-slash", "cwd-relative", "empty"}
+var titleClasses = []string{"benign", "abs-victim", "abs-new", "dotdot-k", "dotdot-many", "mid-dotdot", "dots-only", "nul", "long", "collide", "odd-sep", "dotdot-trailing-slash", "cwd-relative", "sibling-prefix", "empty"}
 
 // title returns a hostile (or benign control) title annotation of class cls.
 func (g *Guard) title(rng *rand.Rand, cls string) named {
@@ -267,13 +267,27 @@ func (g *Guard) titleRaw(rng *rand.Rand, cls string) named {
 	case "cwd-relative":
 		// names that exist in the working directory: a name used without the output directory lands there
 		return named{[]string{g.vFile(), "exist.txt", g.vEtc(), g.vEmpty(), "./" + g.vFile(), g.pwn()}[rng.Intn(6)], cls}
+	case "sibling-prefix":
+		// one level up and into a sibling whose name merely starts with the designated directory's name:
+		// a containment test by string prefix (without the separator) lets these through
+		base := filepath.Base(g.Out)
+		sfx := []string{"2", "-old", ".bak", "x", "_"}[rng.Intn(5)]
+		switch rng.Intn(4) {
+		case 0:
+			return named{"../" + base + sfx + "/" + g.pwn(), cls}
+		case 1:
+			return named{"sub/../../" + base + sfx + "/" + g.pwn(), cls}
+		case 2:
+			return named{"../" + base + sfx, cls} // a file next to the directory
+		}
+		return named{"./../" + base + sfx + "/d/" + g.pwn(), cls}
 	case "empty":
 		return named{"", cls}
 	}
 	panic("unknown title class " + cls)
 }
 
-var entryNameClasses = []string{"benign", "abs-victim", "abs-new", "dotdot-k", "dotdot-many", "mid-dotdot", "dots-only", "long", "collide", "odd-sep", "dotdot-trailing-slash", "cwd-relative"}
+var entryNameClasses = []string{"benign", "abs-victim", "abs-new", "dotdot-k", "dotdot-many", "mid-dotdot", "dots-only", "long", "collide", "odd-sep", "dotdot-trailing-slash", "cwd-relative", "sibling-prefix"}
 
 // entryName returns a tar entry name (no NUL: the tar format cannot carry one).
 func (g *Guard) entryName(rng *rand.Rand) named {
